@@ -37,7 +37,7 @@ def rule(tier):
 def floors(tier):
     return {"evaluations": 250 if tier == "quick" else 1500, "distinct": 250 if tier == "quick" else 1500,
             "counters": {"fixture_documents": 60, "generated_documents": 30, "cells_compared": 300_000, "formula_cells_compared": 10_000, "cycles_second": 100,
-                         "package_saves": 50, "same_object_second_saves": 250, "touched_variants": 100, "exempt_error_cells": 1}}
+                         "package_saves": 50, "same_object_second_saves": 250, "cases_under_a_dst_time_zone": 60, "touched_variants": 100, "exempt_error_cells": 1}}
 
 
 def plan(tier, seed):
@@ -48,11 +48,17 @@ def plan(tier, seed):
         for variant in (("untouched", False), ("touched", False), ("untouched", True), ("touched", True)):
             if tier == "quick" and variant[1] and variant[0] == "untouched" and hash(p) % 2:
                 pass
-            specs.append({"part": "fixture", "path": p, "touched": variant[0] == "touched", "package": variant[1], "cycles": 2 if tier == "quick" else 3, "tier": tier, "seed": seed})
+            spec = {"part": "fixture", "path": p, "touched": variant[0] == "touched", "package": variant[1], "cycles": 2 if tier == "quick" else 3, "tier": tier, "seed": seed}
+            if variant == ("touched", False):
+                spec["tz"] = "CET-1CEST,M3.5.0,M10.5.0/3"  # this variant runs under a local time zone with daylight saving
+            specs.append(spec)
     n = 40 if tier == "quick" else 1600
     k = 10 if tier == "quick" else 64
     for i in range(k):
-        specs.append({"part": "generated", "n": n // k, "stream": i, "tier": tier, "seed": seed, "cycles": 2 if tier == "quick" else 3})
+        spec = {"part": "generated", "n": n // k, "stream": i, "tier": tier, "seed": seed, "cycles": 2 if tier == "quick" else 3}
+        if i % 3 == 1:
+            spec["tz"] = "NZST-12NZDT,M9.5.0,M4.1.0/3"
+        specs.append(spec)
     specs.append({"part": "excluded", "excluded": [list(x) for x in excluded], "tier": tier, "seed": seed})
     # big fixtures first (longest-processing-time scheduling)
     specs.sort(key=lambda s: -os.path.getsize(s["path"]) if s.get("path") and os.path.isfile(s["path"]) else 0)
@@ -155,6 +161,9 @@ def resave_case(src, touched, package, cycles, rec, case, tag, fields_extra=None
     from vf.gen import docs
     fx = dict(fields_extra or {})
     fx["touched"] = touched
+    if os.environ.get("TZ", "UTC") != "UTC":
+        case["tz"] = os.environ["TZ"]  # a witness is replayed under the local time zone it was found under
+        rec.count("cases_under_a_dst_time_zone")
     d = docs.scratch_dir()
     with warnings.catch_warnings():
         warnings.simplefilter("ignore")
